@@ -94,7 +94,7 @@ def run(chk, tier, replay=None):
     key_of = lambda base, v, kind: "C04|%s|%s" % (
         {"differs": "nondeterministic-output", "hang": "encode-hang", "crash": "encoder-crash"}[kind],
         common.hang_sig(base) if kind == "hang" else sig4(base))
-    def differs_key(base, v, ndiff, nvar):
+    def differs_key(base, v, ndiff, nvar):  # ndiff of nvar runs (reference included) deviate from the modal output
         k = key_of(base, v, "differs")
         # TPL on (the default) with more than one thread: 1-3 % of runs give a different stream (known finding). That
         # rare form is kept apart from a difference shown by most perturbed runs of a configuration.
